@@ -23,6 +23,7 @@ class Pool:
         self.rng = random.Random(seed)
         self.bias = bias
         self.wire = wire  # push every message through the JSON wire format
+        self.paused_start = set()
         self.comps = {}
         self.order = []
         self.channels = collections.OrderedDict()  # (src,dest,prio) -> deque[(mid,msg)]
@@ -213,7 +214,15 @@ class Pool:
                 self.started.add(s[1])
                 self.start_step[s[1]] = self.steps
                 self.current = s[1]
-                self.comps[s[1]].start()
+                if s[1] in self.paused_start:
+                    # the computation is paused, started while paused, then resumed (what an agent does when a pause
+                    # request precedes the run request): posts made by start() are held and must go out on resume
+                    c = self.comps[s[1]]
+                    c.pause(True)
+                    c.start()
+                    c.pause(False)
+                else:
+                    self.comps[s[1]].start()
             elif kind == "urgent":
                 _prio, mid, src, msg = self.urgent[s[1]].pop(0)
                 self.current = s[1]
